@@ -12,6 +12,7 @@ import Frp.Engines.Codec
 import Frp.Engines.Visitor
 import Frp.Engines.Wire
 import Frp.Engines.Group
+import Frp.Engines.Http
 /-! Registry of driver engines (one line per engine). -/
 namespace Frp.Engines
 open Frp.Proto
@@ -31,5 +32,6 @@ def all : List (String × Engine) :=
   , ("visitor", visitor)
   , ("wire", wire)
   , ("group", group)
+  , ("http", http)
   ]
 end Frp.Engines
